@@ -434,6 +434,23 @@ def might_carry_state(prog, func):
 def check_no_cross_call_state(ctx, rule, funcs, what):
     """Report every harmful carrier of cross-call state in ``funcs``."""
     prog = ctx.prog
+    # cached helpers the reference tree does not know are inlined at their
+    # call sites (no call edge is left): their caches are judged with the
+    # functions of the modules they live in
+    try:
+        from .refnames import load_ref
+        ref = load_ref() or {}
+    except Exception:  # noqa: BLE001
+        ref = {}
+    mods = {f.module.name for f in funcs if not isinstance(
+        f.node, ast.Lambda)}
+    have = {f.qual for f in funcs}
+    funcs = list(funcs)
+    for q, fn in sorted(prog.funcs.items()):
+        if q not in have and q not in ref and not isinstance(
+                fn.node, ast.Lambda) and fn.module.name in mods and \
+                cache_decorators(fn):
+            funcs.append(fn)
     n = 0
     for f in funcs:
         if isinstance(f.node, ast.Lambda):
